@@ -644,4 +644,48 @@ def r85(F):
     return r
 
 
-RULES = [r1, r1h, r2, r3, r4, r84, r85]
+def r3s(F):
+    from .. import access
+    r = RuleResult("R3s", "the self stack is pushed and popped in pairs",
+                   "the translator brackets every copy body with PushSelf .. PopSelf on all paths; op_push_self pushes the copy target on "
+                   "every successful path whatever its kind and op_pop_self pops exactly once; nothing else writes self_stack -- so `self` "
+                   "inside a copy body is the innermost enclosing copy target, also around module instantiations", floor=4)
+    tc = F.fn("ucglib::build::opcode::translate::AST::translate_copy")
+    ps = TR.pushes(tc)
+    psh = [x["bb"] for x in ps if x["op"] == "PushSelf"]
+    pop = [x["bb"] for x in ps if x["op"] == "PopSelf"]
+    ok = len(psh) == 1 and len(pop) == 1 and cfg.dominates(tc, psh[0], pop[0]) and util.must_pass(tc, psh[0], set(pop))
+    r.inst("translate_copy:bracket", tc.where(psh[0]) if psh else tc.where(), ok,
+           "PushSelf is followed by PopSelf on every path" if ok else "translate_copy does not emit PushSelf/PopSelf as a bracket on every path")
+    adt = "ucglib::build::opcode::vm::VM"
+    for name, meth, other in (("op_push_self", "alloc::vec::Vec::push", "alloc::vec::Vec::pop"), ("op_pop_self", "alloc::vec::Vec::pop", "alloc::vec::Vec::push")):
+        fn = F.fn(VM + name)
+        refs = set()
+        for b, j, pl, rv, m in fn.assigns():
+            if rv["k"] == "ref" and any(isinstance(e, dict) and e.get("f") == "self_stack" for e in rv["place"]["p"]):
+                refs.add(pl["l"])
+        sites = {b for b, t in fn.calls() if callee(t) == meth and t["args"] and op_local(t["args"][0]) in refs}
+        wrong = {b for b, t in fn.calls() if callee(t) == other and t["args"] and op_local(t["args"][0]) in refs}
+        oks = [b for b, j, pl, rv, m in fn.assigns() if pl["l"] == 0 and not pl["p"] and rv["k"] == "agg" and rv.get("variant") == "Ok"]
+        need(oks, "%s has no Ok return" % name)
+        every = bool(sites) and all(ob not in cfg.reachable(fn, 0, removed=sites) for ob in oks)
+        loops = cfg.natural_loops(fn)
+        once = not any(b in body for h, body in loops.items() for b in sites) and len(sites) == 1
+        ok = every and once and not wrong
+        r.inst("%s:unconditional" % name, fn.where(sorted(sites)[0]) if sites else fn.where(), ok,
+               "exactly one %s on self_stack on every successful path" % meth.split("::")[-1] if ok else
+               ("%s reaches Ok without touching self_stack on some path (conditional on the value's kind?): its partner is unconditional, so "
+                "the entry of the enclosing copy is %s" % (name, "popped instead" if name == "op_push_self" else "left behind") if not every else
+                "%s touches self_stack more than once / also calls %s" % (name, other.split("::")[-1])))
+    writers = set()
+    for a in access.field_accesses(F, adt, "self_stack"):
+        if a[0] in ("assign", "mutref"):
+            writers.add(a[1].split("::")[-1])
+    extra = sorted(writers - {"op_push_self", "op_pop_self"})
+    r.inst("self_stack:writers", "src/build/opcode/vm.rs", not extra,
+           "only op_push_self and op_pop_self modify self_stack" if not extra else "self_stack is also modified by %s" % extra)
+    # a child VM starts with its own (copied or empty) self stack: constructors only
+    return r
+
+
+RULES = [r1, r1h, r2, r3, r3s, r4, r84, r85]
